@@ -173,18 +173,22 @@ def setNth (l : List Entry) (k : Nat) (f : Entry → Entry) : List Entry :=
   | a :: r, 0 => f a :: r
   | a :: r, k + 1 => a :: setNth r k f
 
+/-- the datagram's own processing (coap_dispatch … handle_request … the handler): the state, the entry the handler
+registered, the outcome -/
+def rxOwn (c : Cfg) (dec : Dec) (st : St) (p : Nat) (defer : Option Nat) (rq : Request) : (St × Option Entry) × Outcome :=
+  let st1 : St := { st with sess := touch c st.sess p st.now }
+  let hit := (find st1.async p rq.msg.token).isSome
+  let o := dec.first hit (if defer.isSome then { rq with verdict := ⟨0, []⟩ } else rq)
+  (match defer, o.call with
+   | some d, some call => register st1 p call rq.msg.type rq.msg.token d
+   | _, _ => (st1, none), o)
+
 def step (c : Cfg) (dec : Dec) (st : St) : Ev → St × Out
   | .rx p defer rq =>
-    let st1 : St := { st with sess := touch c st.sess p st.now }
-    let hit := (find st1.async p rq.msg.token).isSome
-    let o := dec.first hit (if defer.isSome then { rq with verdict := ⟨0, []⟩ } else rq)
-    let x : St × Option Entry :=
-      match defer, o.call with
-      | some d, some call => register st1 p call rq.msg.type rq.msg.token d
-      | _, _ => (st1, none)
+    let x := rxOwn c dec st p defer rq
     -- coap_io_do_epoll ends with coap_io_prepare_epoll_lkd(ctx, now)
-    let y := prepare c dec rq.verdict x.1
-    (y.1, { y.2 with first := some o, registered := x.2 })
+    let y := prepare c dec rq.verdict x.1.1
+    (y.1, { y.2 with first := some x.2, registered := x.1.2 })
   | .io dt v => prepare c dec v { st with now := (st.now + dt) % W }
   | .trigger k =>
     -- coap_ticks(&async->delay)
